@@ -42,7 +42,7 @@ func TestVerifC02Flt(t *testing.T) {
 		} else {
 			c.QT = c02QTName[rng.Intn(4)]
 		}
-		if c.QT == "TXT" {
+		if c.QT == "TXT" || c.QT == "AAAA" {
 			c.Ups = "cname"
 		}
 		cases = append(cases, c)
